@@ -692,7 +692,9 @@ def replay_b(case):
 # ================================================================================================
 # (markup, visible text).  No text ends in '\n' (see module docstring).
 C_TEXTS = [("", ""), ("a", "a"), ("héllo ☃", "héllo ☃"), ("<b>x</b> y", "x y"),
-           ("a\n\nb", "a\n\nb"), ("x < y > z", "x < y > z"), ("<error>e\nf</error>", "e\nf")]
+           ("a\n\nb", "a\n\nb"), ("x < y > z", "x < y > z"), ("<error>e\nf</error>", "e\nf"),
+           # trailing blanks belong to the text (a prompt, a padded column)
+           ("Password: ", "Password: "), ("  ", "  ")]
 
 
 def _fmt(ansi):
@@ -855,13 +857,70 @@ def part_c(rep):
             if v["sig"] not in best or i < best[v["sig"]][0]:
                 best[v["sig"]] = (i, v)
     rep.merge([v for _, v in sorted(best.values(), key=lambda x: x[0])])
+    sw = switch_cases()
+    for c in sw:
+        v = run_switch_case(c)
+        if v:
+            rep.violation(v)
+    rep.part("c2_decoration_switched_off", cases=len(sw), operations=SWITCH_OPS,
+             what="content written while decorated, formatter then replaced by a plain one: no escape byte afterwards")
     eps = sorted({"%s.%s" % (c[0], c[2]) for c in cs})
     rep.part("c_line_methods", cases=len(cs), entry_points=eps, texts=[t[0] for t in C_TEXTS], calls=[1, 2])
     rep.sample({"part": "c", "case": cs[len(cs) // 2]})
     return len(cs), len([c for c in cs if C_TEXTS[c[3]][0] != ""])
 
 
+# (c2) decoration switched off on a live receiver: content was written while the output was decorated, then the formatter is
+# replaced by a plain one (what --no-ansi handling does to an I/O that already exists); from then on not one escape byte
+SWITCH_OPS = ["write_line", "overwrite", "clear", "clear1", "write_line_raw"]
+
+
+def run_switch_case(case):
+    """case = ["switch", receiver kind, how the formatter is replaced, operation]"""
+    from clikit.api.io import Output
+    from clikit.io import BufferedIO
+    from clikit.io.output_stream import BufferedOutputStream
+    _, kind, how, op = case
+    if kind == "output-section":
+        s = BufferedOutputStream()
+        parent = Output(s, _ansi())
+        sec = parent.section()
+        streams, target = [s], sec
+        switch = (lambda: sec.set_formatter(_plain())) if how == "on-section" else (lambda: (parent.set_formatter(_plain()), sec.set_formatter(parent.formatter)))
+    else:
+        io = BufferedIO(formatter=_ansi())
+        sec_io = io.section()
+        streams, target = [io.output.stream, io.error_output.stream], sec_io.output
+        switch = (lambda: sec_io.set_formatter(_plain())) if how == "on-section" else (lambda: (io.set_formatter(_plain()), sec_io.set_formatter(io.output.formatter)))
+    try:
+        target.write_line("<b>first</b>")
+        target.write_line("second")
+        switch()
+        before = [x.fetch() for x in streams]
+        if op == "clear":
+            target.clear()
+        elif op == "clear1":
+            target.clear(1)
+        elif op == "overwrite":
+            target.overwrite("<b>third</b>")
+        else:
+            getattr(target, op)("<b>third</b>")
+    except Exception as e:
+        return report.viol("c2:crash:" + report.exc_site(e), "%r raised %r" % (case, e), case)
+    delta = "".join(x.fetch()[len(b):] for x, b in zip(streams, before))
+    if "\x1b" in delta:
+        return report.viol("c2:esc-after-switch-to-plain:%s.%s" % (kind, op), "%s.%s emitted an escape byte after the formatter had been replaced by a "
+                           "plain one (%s)" % (kind, op, how), case, "no ESC", delta)
+    return None
+
+
+def switch_cases():
+    return [["switch", k, how, op] for k in ("output-section", "io-section") for how in ("on-section", "on-parent-then-section") for op in SWITCH_OPS]
+
+
 def replay_c(case):
+    if isinstance(case, list) and case and case[0] == "switch":
+        return run_switch_case(case)
     return run_line_case(case["case"] if isinstance(case, dict) and "case" in case else case)
 
 
@@ -1123,6 +1182,10 @@ def run_with_program(ansi, chain, r, c):
             if i != c:
                 raise
             return
+        if r > 0 and c <= i <= r and not bad:
+            # scopes c..r are left by the exception raised in scope r: control cannot arrive behind their with-statements
+            bad.append(("d:exception-swallowed", "an exception raised inside an indentation scope (with-statement on %s) did not leave it" % (target,),
+                        "Boom propagates", "execution went on behind the with-statement"))
         _ref_close(ref, saved)
         point("after-with")
 
